@@ -2,6 +2,7 @@ SPECIFICATION Spec
 CONSTANTS
   N = 1
   MaxEdges = 3
+  Prefix = FALSE
   EdgeKinds <- Kinds9
 INVARIANT Emit
 CHECK_DEADLOCK FALSE
